@@ -28,7 +28,7 @@
 (* The observation predicates (…Obs) are shared with IngestTrace, which    *)
 (* evaluates them on what the real code did.                               *)
 (***************************************************************************)
-EXTENDS Integers, Sequences, FiniteSets, TLC
+EXTENDS IngestObs, FiniteSets, TLC
 
 CONSTANTS MaxWrites,       \* bound on WriteTmp / WriteLock repetitions
           MaxFaults,       \* injected OS faults per run
